@@ -971,4 +971,343 @@ Section Cover.
       intros e He De Se. unfold scope in Se. rewrite Erec in Se.
       assert (e = er) by (apply (path_inj (w_fs w)); [apply W| | |]; congruence). subst e. now exists kw.
   Qed.
+
+  (* ------------------------------------------------------------------ the reader on one batch *)
+  Definition inert (m : N) : Prop :=
+    is_moved_from m = false /\ is_moved_to m = false /\ is_ignored m = false /\ (is_directory m && is_create m) = false.
+
+  Definition src_path_of (wp : bytes) (name : bytes) : bytes :=
+    match name with [] => wp | _ => join wp name end.
+
+  Definition raw_ev (wp : bytes) (e : kraw) : raw :=
+    {| r_wd := k_wd e; r_mask := k_mask e; r_cookie := k_cookie e; r_name := k_name e;
+       r_path := src_path_of wp (k_name e) |}.
+
+  Lemma read_one_inert t r k acc e wp : inert (k_mask e) -> alookup N.eqb (k_wd e) (pfw r) = Some wp ->
+    read_one C t (r, k, acc) e = Done (r, k, acc ++ [raw_ev wp e]).
+  Proof.
+    intros (H1 & H2 & H3 & H4) Hp. unfold read_one. rewrite Hp, H1, H2, H3.
+    rewrite <- andb_assoc, H4, andb_false_r. reflexivity.
+  Qed.
+
+  Lemma read_batch_app t st a b :
+    read_batch C t st (a ++ b) = match read_batch C t st a with Done st' => read_batch C t st' b | Crash s => Crash s end.
+  Proof.
+    revert st. induction a as [|e a IH]; intros st; cbn [app read_batch]; [reflexivity|].
+    destruct (read_one C t st e); [apply IH | reflexivity].
+  Qed.
+
+  Definition inert_ev (r : rstate) (e : kraw) : Prop :=
+    inert (k_mask e) /\ exists wp, alookup N.eqb (k_wd e) (pfw r) = Some wp.
+
+  Lemma read_batch_inert t r k l : Forall (inert_ev r) l -> forall acc,
+    exists evs, read_batch C t (r, k, acc) l = Done (r, k, acc ++ evs) /\ length evs = length l.
+  Proof.
+    induction 1 as [|e l (Hi & wp & Hp) Hl IH]; intros acc.
+    - exists []. now rewrite app_nil_r.
+    - cbn [read_batch]. rewrite (read_one_inert _ _ _ _ _ wp Hi Hp).
+      destruct (IH (acc ++ [raw_ev wp e])) as (evs & -> & Hlen). exists (raw_ev wp e :: evs).
+      rewrite <- app_assoc. split; [reflexivity | cbn; lia].
+  Qed.
+
+  (* ------------------------------------------------------------------ the kernel side *)
+  Definition kset_queue (k : kst) (q : list kraw) : kst :=
+    {| k_watches := k_watches k; k_next_wd := k_next_wd k; k_queue := q; k_next_cookie := k_next_cookie k |}.
+
+  Definition kev (kw : kwatch) (bit : N) (isd : bool) (c : N) (name : bytes) : kraw :=
+    {| k_wd := kw_wd kw; k_mask := if isd then N.lor bit IN_ISDIR else bit; k_cookie := c; k_name := name |}.
+
+  Lemma watch_of_ino_ext k k' i : k_watches k' = k_watches k -> watch_of_ino k' i = watch_of_ino k i.
+  Proof. unfold watch_of_ino. now intros ->. Qed.
+
+  Lemma kpush_cases q e : kpush q e = q \/ kpush q e = q ++ [e].
+  Proof. unfold kpush. destruct (rev q); [now right|]. destruct (kraw_eqb k e); auto. Qed.
+
+  Lemma kpush_nil e : kpush [] e = [e].
+  Proof. reflexivity. Qed.
+
+  Lemma kpush_snoc q a e : k_mask a <> k_mask e -> kpush (q ++ [a]) e = q ++ [a; e].
+  Proof.
+    intros H. unfold kpush. rewrite rev_app_distr. cbn [rev app]. unfold kraw_eqb.
+    apply N.eqb_neq in H. rewrite H, andb_false_r. cbn. now rewrite <- app_assoc.
+  Qed.
+
+  Lemma knotify_cases k ino bit isd c name :
+    knotify k ino bit isd c name = k \/
+    exists kw, watch_of_ino k ino = Some kw /\ N.land bit (kw_mask kw) <> 0%N /\
+               knotify k ino bit isd c name = kset_queue k (kpush (k_queue k) (kev kw bit isd c name)).
+  Proof.
+    unfold knotify. destruct (watch_of_ino k ino) as [kw|]; [|now left].
+    destruct (N.eqb (N.land bit (kw_mask kw)) 0) eqn:E; [now left|]. right. exists kw.
+    apply N.eqb_neq in E. auto.
+  Qed.
+
+  Lemma knotify_inv (P : kraw -> Prop) k ino bit isd c name :
+    Forall P (k_queue k) -> (forall kw, watch_of_ino k ino = Some kw -> P (kev kw bit isd c name)) ->
+    k_watches (knotify k ino bit isd c name) = k_watches k /\
+    k_next_wd (knotify k ino bit isd c name) = k_next_wd k /\
+    k_next_cookie (knotify k ino bit isd c name) = k_next_cookie k /\
+    Forall P (k_queue (knotify k ino bit isd c name)).
+  Proof.
+    intros Hq Hp. destruct (knotify_cases k ino bit isd c name) as [->|(kw & Hw & _ & ->)]; [auto|].
+    cbn. repeat split; try reflexivity. destruct (kpush_cases (k_queue k) (kev kw bit isd c name)) as [->| ->]; [exact Hq|].
+    apply Forall_app. split; [exact Hq|]. constructor; [now apply Hp | constructor].
+  Qed.
+
+  Lemma knotify_watched k ino bit isd c name kw : watch_of_ino k ino = Some kw -> N.land bit (kw_mask kw) <> 0%N ->
+    knotify k ino bit isd c name = kset_queue k (kpush (k_queue k) (kev kw bit isd c name)).
+  Proof. intros Hw Hm. unfold knotify. rewrite Hw. apply N.eqb_neq in Hm. now rewrite Hm. Qed.
+
+  Lemma knotify_unwatched k ino bit isd c name : watch_of_ino k ino = None -> knotify k ino bit isd c name = k.
+  Proof. intros Hw. unfold knotify. now rewrite Hw. Qed.
+
+  (* ------------------------------------------------------------------ the synchronised state *)
+  Record RSync (w : world) (k : kst) (r : rstate) : Prop := {
+    rs_wf : wf_fs w;
+    rs_root : isdir_in root (w_fs w);
+    rs_inv : WInv (w_fs w) k r;
+    rs_cover : Cover (w_fs w) k r;
+    rs_queue : k_queue k = []
+  }.
+
+  Definition drainq (k : kst) : kst := kset_queue k [].
+
+  (* one operation followed by one read of the whole kernel queue *)
+  Definition rstep (w : world) (k : kst) (r : rstate) (o : op) : option (world * outcome (rstate * kst * list raw)) :=
+    match apply_op w o with
+    | None => None
+    | Some w' => let k1 := kernel_op k (w_fs w) o in
+                 Some (w', read_batch C (w_fs w') (r, drainq k1, []) (k_queue k1))
+    end.
+
+  Lemma WInv_ext t t' k k' r : WInv t k r ->
+    (forall e, In e t -> f_dir e = true -> In e t') ->
+    k_watches k' = k_watches k -> k_next_wd k' = k_next_wd k -> (k_next_cookie k <= k_next_cookie k')%N ->
+    WInv t' k' r.
+  Proof.
+    intros I Ht Hw Hn Hc. constructor; rewrite ?Hw, ?Hn; try apply I.
+    - intros kw Hk. destruct (wi_exact _ _ _ I kw Hk) as (e & He & De & Se & R). exists e. split; [now apply Ht | auto].
+    - intros c x Hx. apply (wi_mvf _ _ _ I) in Hx. lia.
+  Qed.
+
+  Lemma Cover_ext t t' k k' r : Cover t k r -> (forall e, In e t' -> f_dir e = true -> In e t) ->
+    k_watches k' = k_watches k -> Cover t' k' r.
+  Proof.
+    intros Cv Ht Hw e He De Se. destruct (Cv e (Ht e He De) De Se) as (kw & H1 & H2). exists kw.
+    split; [|exact H2]. now rewrite (watch_of_ino_ext k k').
+  Qed.
+
+  (* every kernel watch has a _path_for_wd entry *)
+  Lemma watch_pfw t k r i kw : WInv t k r -> watch_of_ino k i = Some kw ->
+    exists wp, alookup N.eqb (kw_wd kw) (pfw r) = Some wp.
+  Proof.
+    intros I Hw. apply watch_of_ino_some in Hw as [Hk _]. destruct (wi_exact _ _ _ I kw Hk) as (e & _ & _ & _ & _ & Hp & _).
+    eauto.
+  Qed.
+
+  (* ------------------------------------------------------------------ 2b: operations that leave the watch state untouched *)
+  Lemma knotify_inert t k0 r k ino bit (isd : bool) c name : WInv t k0 r -> k_watches k = k_watches k0 ->
+    Forall (inert_ev r) (k_queue k) -> inert (if isd then N.lor bit IN_ISDIR else bit) ->
+    k_watches (knotify k ino bit isd c name) = k_watches k0 /\
+    k_next_wd (knotify k ino bit isd c name) = k_next_wd k /\
+    k_next_cookie (knotify k ino bit isd c name) = k_next_cookie k /\
+    Forall (inert_ev r) (k_queue (knotify k ino bit isd c name)).
+  Proof.
+    intros I Hw Hq Hi.
+    destruct (knotify_inv (inert_ev r) k ino bit isd c name Hq) as (A & B & D & E).
+    - intros kw Hk. split; [exact Hi|]. cbn [kev k_wd]. rewrite (watch_of_ino_ext k0 k) in Hk by assumption.
+      eapply watch_pfw; eauto.
+    - rewrite A. auto.
+  Qed.
+
+  Ltac inert_mask := unfold inert; repeat split; vm_compute; reflexivity.
+
+  Definition quiet_op (o : op) : Prop :=
+    match o with Touch _ | Write _ | Chmod _ | Unlink _ => True | _ => False end.
+
+  Lemma quiet_kernel t k r o : WInv t k r -> k_queue k = [] -> quiet_op o ->
+    k_watches (kernel_op k t o) = k_watches k /\ k_next_wd (kernel_op k t o) = k_next_wd k /\
+    k_next_cookie (kernel_op k t o) = k_next_cookie k /\ Forall (inert_ev r) (k_queue (kernel_op k t o)).
+  Proof.
+    intros I Hq Ho. assert (Hq0 : Forall (inert_ev r) (k_queue k)) by (rewrite Hq; constructor).
+    destruct o as [p|p|p|p|p|p|p q]; try contradiction; cbn [kernel_op].
+    - destruct (knotify_inert t k r k (ino_of t (dirname p)) IN_CREATE false 0 (basename p) I eq_refl Hq0) as (A1 & B1 & C1 & D1); [inert_mask|].
+      destruct (knotify_inert t k r _ (ino_of t (dirname p)) IN_OPEN false 0 (basename p) I A1 D1) as (A2 & B2 & C2 & D2); [inert_mask|].
+      destruct (knotify_inert t k r _ (ino_of t (dirname p)) IN_CLOSE_WRITE false 0 (basename p) I A2 D2) as (A3 & B3 & C3 & D3); [inert_mask|].
+      repeat split; try assumption; congruence.
+    - destruct (knotify_inert t k r k (ino_of t (dirname p)) IN_OPEN false 0 (basename p) I eq_refl Hq0) as (A1 & B1 & C1 & D1); [inert_mask|].
+      destruct (knotify_inert t k r _ (ino_of t (dirname p)) IN_MODIFY false 0 (basename p) I A1 D1) as (A2 & B2 & C2 & D2); [inert_mask|].
+      destruct (knotify_inert t k r _ (ino_of t (dirname p)) IN_CLOSE_WRITE false 0 (basename p) I A2 D2) as (A3 & B3 & C3 & D3); [inert_mask|].
+      repeat split; try assumption; congruence.
+    - destruct (knotify_inert t k r k (ino_of t (dirname p)) IN_ATTRIB (fisdir p t) 0 (basename p) I eq_refl Hq0) as (A1 & B1 & C1 & D1);
+        [destruct (fisdir p t); inert_mask|].
+      destruct (fisdir p t); [|auto].
+      destruct (knotify_inert t k r _ (ino_of t p) IN_ATTRIB true 0 [] I A1 D1) as (A2 & B2 & C2 & D2); [inert_mask|].
+      repeat split; try assumption; congruence.
+    - destruct (knotify_inert t k r k (ino_of t (dirname p)) IN_DELETE false 0 (basename p) I eq_refl Hq0) as (A1 & B1 & C1 & D1); [inert_mask|].
+      auto.
+  Qed.
+
+  Lemma quiet_fs w o w' : wf_fs w -> quiet_op o -> apply_op w o = Some w' ->
+    (forall e, f_dir e = true -> In e (w_fs w) <-> In e (w_fs w')).
+  Proof.
+    intros W Ho H e De. destruct o as [p|p|p|p|p|p|p q]; try contradiction; cbn [apply_op] in H.
+    - destruct (fisdir (dirname p) (w_fs w) && negb (fexists p (w_fs w))); [|discriminate]. injection H as <-. cbn.
+      rewrite in_app_iff. split; [auto|]. intros [H|[<-|[]]]; [assumption | discriminate].
+    - destruct (flookup p (w_fs w)) as [x|]; [|discriminate]. destruct (f_dir x); [discriminate|]. injection H as <-. tauto.
+    - destruct (fexists p (w_fs w)); [|discriminate]. injection H as <-. tauto.
+    - destruct (flookup p (w_fs w)) as [x|] eqn:El; [|discriminate]. destruct (f_dir x) eqn:Dx; [discriminate|].
+      injection H as <-. cbn. rewrite fremove_in. split; [|tauto]. intros He. split; [assumption|].
+      intros E. apply flookup_some in El as [Hx Ex].
+      assert (e = x) by (apply (path_inj (w_fs w)); [apply W| | |]; congruence). congruence.
+  Qed.
+
+  Theorem step_quiet w k r o w' : RSync w k r -> op_np o -> quiet_op o -> apply_op w o = Some w' ->
+    let k1 := kernel_op k (w_fs w) o in
+    exists evs, read_batch C (w_fs w') (r, drainq k1, []) (k_queue k1) = Done (r, drainq k1, evs) /\
+                length evs = length (k_queue k1) /\ RSync w' (drainq k1) r.
+  Proof.
+    intros S Hnp Ho Ha k1. destruct S as [W Hr I Cv Hq].
+    destruct (quiet_kernel (w_fs w) k r o I Hq Ho) as (A & B & D & E). fold k1 in A, B, D, E.
+    destruct (read_batch_inert (w_fs w') r (drainq k1) _ E []) as (evs & Hrd & Hlen).
+    exists evs. split; [exact Hrd|]. split; [exact Hlen|].
+    assert (Hfs := quiet_fs w o w' W Ho Ha).
+    constructor.
+    - eapply wf_apply_op; eauto.
+    - destruct Hr as (e & He & Ee & De). exists e. split; [now apply Hfs | auto].
+    - apply (WInv_ext (w_fs w) (w_fs w') k); try assumption; cbn; try assumption.
+      + intros e He De. now apply Hfs.
+      + rewrite D. lia.
+    - apply (Cover_ext (w_fs w) (w_fs w') k); try assumption. intros e He De. now apply Hfs.
+    - reflexivity.
+  Qed.
+
+  (* ------------------------------------------------------------------ 2b: Mkdir *)
+  Lemma filter_nil {A} (f : A -> bool) l : (forall x, In x l -> f x = false) -> filter f l = [].
+  Proof. induction l as [|a l IH]; cbn; intros H; [reflexivity|]. rewrite H by now left. apply IH. intros; apply H; now right. Qed.
+
+  Lemma content_empty t p : (forall e, In e t -> is_child p (f_path e) = false) -> content t p = Node [] [].
+  Proof.
+    intros H. unfold content. destruct (fisdir p t); [|reflexivity]. destruct (length t); [reflexivity|].
+    cbn [content_fuel]. rewrite !filter_nil; [reflexivity| |]; intros e He; now rewrite H.
+  Qed.
+
+  Lemma read_one_create t r k acc e wp :
+    is_moved_from (k_mask e) = false -> is_moved_to (k_mask e) = false -> is_ignored (k_mask e) = false ->
+    is_directory (k_mask e) = true -> is_create (k_mask e) = true ->
+    alookup N.eqb (k_wd e) (pfw r) = Some wp ->
+    read_one C t (r, k, acc) e =
+      let ev := raw_ev wp e in
+      if c_recursive C then
+        match add_watch C r k t (r_path ev) with
+        | None => Done (bump r, k, acc ++ [ev])
+        | Some (r3, k3, _) => simulate C r3 k3 t (walk (r_path ev) (content t (r_path ev))) (acc ++ [ev])
+        end
+      else Done (r, k, acc ++ [ev]).
+  Proof.
+    intros H1 H2 H3 H4 H5 Hp. unfold read_one. rewrite Hp, H1, H2, H3, H4, H5. cbn [andb].
+    destruct (c_recursive C); reflexivity.
+  Qed.
+
+  Lemma not_scope_unwatched w k r e : wf_fs w -> WInv (w_fs w) k r -> In e (w_fs w) -> ~ scope (f_path e) ->
+    watch_of_ino k (f_ino e) = None.
+  Proof.
+    intros W I He Hs. destruct (watch_of_ino k (f_ino e)) as [kw|] eqn:E; [|reflexivity]. exfalso.
+    apply watch_of_ino_some in E as [Hk Ei]. destruct (wi_exact _ _ _ I kw Hk) as (e' & He' & _ & Se' & Ie' & _).
+    assert (e' = e) by (apply (ino_inj w); try assumption; congruence). subst. contradiction.
+  Qed.
+
+  Lemma watched_entry w k r e kw : wf_fs w -> WInv (w_fs w) k r -> In e (w_fs w) -> watch_of_ino k (f_ino e) = Some kw ->
+    scope (f_path e) /\ f_dir e = true /\ cov k r e kw /\ In kw (k_watches k) /\ kw_mask kw = c_mask C.
+  Proof.
+    intros W I He E. destruct (watch_of_ino_some _ _ _ E) as [Hk Ei].
+    destruct (wi_exact _ _ _ I kw Hk) as (e' & He' & De' & Se' & Ie' & Pe' & We').
+    assert (e' = e) by (apply (ino_inj w); try assumption; congruence). subst.
+    repeat split; try assumption. now apply (wi_mask _ _ _ I).
+  Qed.
+
+  Lemma scope_child d n : scope d -> c_recursive C = true -> scope (d ++ sep :: n).
+  Proof.
+    unfold scope. intros H E. rewrite E in *. right. destruct H as [->|H]; [apply under_app|].
+    eapply under_trans; [exact H | apply under_app].
+  Qed.
+
+  Lemma scope_parent p : npath p -> scope p -> p <> root -> scope (dirname p) /\ c_recursive C = true.
+  Proof.
+    unfold scope. intros Np H Hne. destruct (c_recursive C); [|contradiction]. split; [|reflexivity].
+    cbv iota in H. destruct H as [H|H]; [contradiction|]. destruct (npath_parts p Np) as (E & _ & V & _).
+    rewrite E in H. apply np_under_split in H; [|exact V]. destruct H as [H|H]; auto.
+  Qed.
+
+  Theorem step_mkdir w k r p w' : RSync w k r -> npath p -> apply_op w (Mkdir p) = Some w' ->
+    N.land IN_CREATE (c_mask C) <> 0%N ->
+    let k1 := kernel_op k (w_fs w) (Mkdir p) in
+    exists r' k' evs, read_batch C (w_fs w') (r, drainq k1, []) (k_queue k1) = Done (r', k', evs) /\ RSync w' k' r' /\
+      (forall x, x <> p -> alookup beqb x (wfp r') = alookup beqb x (wfp r)).
+  Proof.
+    intros S Np Ha Hm k1. destruct S as [W Hr I Cv Hq].
+    assert (W' : wf_fs w') by exact (wf_apply_op w (Mkdir p) w' W Np Ha).
+    cbn [apply_op] in Ha.
+    destruct (fisdir (dirname p) (w_fs w)) eqn:Ed; [|discriminate].
+    destruct (fexists p (w_fs w)) eqn:Ex; [discriminate|]. cbn in Ha. injection Ha as <-.
+    set (x := {| f_path := p; f_ino := w_next_ino w; f_dir := true |}) in *.
+    apply fexists_false in Ex. destruct (fisdir_in _ _ Ed) as (de & Hde & Ede & Dde).
+    assert (Eino : ino_of (w_fs w) (dirname p) = f_ino de).
+    { unfold ino_of. rewrite <- Ede. now rewrite (flookup_in _ de (wf_paths w W) Hde). }
+    assert (Hnew : forall e, In e (w_fs w ++ [x]) -> f_dir e = true -> e = x \/ In e (w_fs w)).
+    { intros e He _. apply in_app_iff in He as [He|[<-|[]]]; auto. }
+    assert (Hroot' : isdir_in root (w_fs w ++ [x])).
+    { destruct Hr as (e & He & Ee & De). exists e. split; [apply in_app_iff; now left | auto]. }
+    assert (Hpr : p <> root).
+    { intros E. destruct Hr as (e & He & Ee & _). apply Ex. rewrite E, <- Ee. now apply in_map. }
+    subst k1. cbn [kernel_op]. rewrite Eino.
+    destruct (watch_of_ino k (f_ino de)) as [kw|] eqn:Ew.
+    - (* the parent is watched *)
+      destruct (watched_entry w k r de kw W I Hde Ew) as (Sde & _ & (_ & Pde & Wde) & Hkw & Mkw).
+      rewrite (knotify_watched _ _ _ _ _ _ kw Ew) by (rewrite Mkw; exact Hm). rewrite Hq, kpush_nil.
+      cbn [k_queue kset_queue read_batch].
+      assert (I0 : WInv (w_fs w ++ [x]) (drainq (kset_queue k [kev kw IN_CREATE true 0 (basename p)])) r).
+      { apply (WInv_ext (w_fs w) _ k); try assumption; try reflexivity; try (cbn; lia).
+        intros e He _. apply in_app_iff. now left. }
+      destruct (npath_parts p Np) as (Ep & Gd & Vn & Jp).
+      rewrite (read_one_create _ _ _ _ _ (dirname p)); try (vm_compute; reflexivity);
+        [|cbn [kev k_wd]; now rewrite Pde, Ede].
+      assert (Epath : r_path (raw_ev (dirname p) (kev kw IN_CREATE true 0 (basename p))) = p).
+      { unfold raw_ev, kev, src_path_of. cbn [r_path k_name]. destruct (basename p) eqn:Eb; [discriminate Vn|]. exact Jp. }
+      cbv zeta. rewrite Epath. destruct (c_recursive C) eqn:Erec.
+      + assert (Sx : scope (f_path x)).
+        { cbn [f_path x]. rewrite Ep. apply scope_child; [now rewrite <- Ede | exact Erec]. }
+        assert (Hx : In x (w_fs {| w_fs := w_fs w ++ [x]; w_next_ino := w_next_ino w + 1 |})) by (cbn; apply in_app_iff; right; now left).
+        destruct (add_watch_ok _ _ r x W' I0 Hx eq_refl Sx)
+          as (r3 & k3 & wd & Hadd & I3 & Q3 & N3 & M3 & (kwx & Cx & _) & P3 & L3).
+        change (f_path x) with p in Hadd. rewrite Hadd.
+        rewrite content_empty.
+        2:{ intros e He. apply in_app_iff in He as [He|[<-|[]]].
+            - destruct (is_child p (f_path e)) eqn:Ec; [|reflexivity]. exfalso.
+              apply is_child_np in Ec; [|now apply (wf_np w W)].
+              assert (Hu : under p (f_path e) = true) by (rewrite <- Ec; apply under_dirname; now apply (wf_np w W)).
+              rewrite (nothing_below w p de W Hde) in Hu; [discriminate| | |assumption].
+              + rewrite Ede. now apply under_dirname.
+              + left. intros (y & Hy & Ey & _). apply Ex. rewrite <- Ey. now apply in_map.
+            - unfold is_child. cbn. now rewrite beqb_refl, andb_false_r. }
+        cbn. eexists _, _, _. split; [reflexivity|]. split.
+        * constructor; try assumption; try (rewrite Q3; reflexivity).
+          intros e He De Se. destruct (Hnew e He De) as [->|He0]; [now exists kwx|].
+          destruct (Cv e He0 De Se) as (kw0 & C0). exists kw0. apply P3; [exact He|].
+          destruct C0 as (A1 & A2 & A3). split; [|split]; assumption.
+        * exact L3.
+      + eexists _, _, _. split; [reflexivity|]. split; [|reflexivity]. constructor; try assumption; [|reflexivity].
+        intros e He De Se. destruct (Hnew e He De) as [->|He0].
+        * unfold scope in Se. rewrite Erec in Se. contradiction.
+        * destruct (Cv e He0 De Se) as (kw0 & A1 & A2). exists kw0. split; assumption.
+    - (* the parent is not watched: no event *)
+      rewrite (knotify_unwatched _ _ _ _ _ _ Ew), Hq. cbn [read_batch].
+      eexists _, _, _. split; [reflexivity|]. split; [|reflexivity]. constructor; try assumption; [| |reflexivity].
+      + apply (WInv_ext (w_fs w) _ k); try assumption; try reflexivity; try (cbn; lia).
+        intros e He _. apply in_app_iff. now left.
+      + intros e He De Se. destruct (Hnew e He De) as [->|He0].
+        * exfalso. cbn [f_path x] in Se. destruct (scope_parent p Np Se Hpr) as [Sd _].
+          rewrite <- Ede in Sd. destruct (Cv de Hde Dde Sd) as (kw & A & _). congruence.
+        * destruct (Cv e He0 De Se) as (kw0 & A1 & A2). exists kw0. split; assumption.
+  Qed.
 End Cover.
